@@ -287,19 +287,34 @@ const xeEnvelopeNS = "urn:verif:envelope"
 // consumer is handed - the root, or for decl = "ancestor" the only child of the enclosing envelope -
 // together with the text.
 func xeRender(el *etree.Element, l xeLex) (*etree.Element, []byte, error) {
+	return xeRenderDoc(el, nil, l)
+}
+
+// xeRenderDoc is xeRender for an element with the elements sibs standing behind it in the enclosing element (the
+// envelope is then written in every form; it carries the declarations only for decl = "ancestor").  The element a
+// consumer is handed is el: the first child of the envelope.
+func xeRenderDoc(el *etree.Element, sibs []*etree.Element, l xeLex) (*etree.Element, []byte, error) {
 	l = l.norm()
-	top := el.Copy()
+	tops := []*etree.Element{el.Copy()}
+	for _, s := range sibs {
+		tops = append(tops, s.Copy())
+	}
 	doc := etree.NewDocument()
-	var host *etree.Element
-	if l.Decl == "ancestor" {
+	var host, decls *etree.Element
+	if l.Decl == "ancestor" || len(sibs) > 0 {
 		host = etree.NewElement("w:Envelope")
 		host.CreateAttr("xmlns:w", xeEnvelopeNS)
-		host.AddChild(top)
+		for _, t := range tops {
+			host.AddChild(t)
+		}
 		doc.SetRoot(host)
+		if l.Decl == "ancestor" {
+			decls = host
+		}
 	} else {
-		doc.SetRoot(top)
+		doc.SetRoot(tops[0])
 	}
-	xeRelex([]*etree.Element{top}, host, l)
+	xeRelex(tops, decls, l)
 	b, err := doc.WriteToBytes()
 	if err != nil {
 		return nil, nil, err
@@ -309,7 +324,8 @@ func xeRender(el *etree.Element, l xeLex) (*etree.Element, []byte, error) {
 }
 
 // xeParseTarget parses a text written by xeRender (or any stored element) and returns the
-// EncryptedData / EncryptedKey element in it: the root, or the only child of an envelope.
+// EncryptedData / EncryptedKey element in it: the root, or the first child of an envelope (further children are
+// EncryptedKey elements standing behind it).
 func xeParseTarget(b []byte) (*etree.Element, error) {
 	d := etree.NewDocument()
 	if err := d.ReadFromBytes(b); err != nil {
@@ -320,10 +336,10 @@ func xeParseTarget(b []byte) (*etree.Element, error) {
 		return nil, fmt.Errorf("no root element")
 	}
 	if root.Tag == "Envelope" && root.NamespaceURI() == xeEnvelopeNS {
-		if k := root.ChildElements(); len(k) == 1 {
+		if k := root.ChildElements(); len(k) >= 1 {
 			return k[0], nil
 		}
-		return nil, fmt.Errorf("envelope without exactly one child element")
+		return nil, fmt.Errorf("envelope without child element")
 	}
 	return root, nil
 }
@@ -335,7 +351,7 @@ func xeNamespaceOK(e *etree.Element) error {
 	want := map[string]string{
 		"EncryptedData": nsXenc, "EncryptedKey": nsXenc, "EncryptionMethod": nsXenc, "CipherData": nsXenc, "CipherValue": nsXenc,
 		"KeySize": nsXenc, "OAEPparams": nsXenc,
-		"KeyInfo": nsDsig, "DigestMethod": nsDsig, "X509Data": nsDsig, "X509Certificate": nsDsig, "X509IssuerSerial": nsDsig,
+		"KeyInfo": nsDsig, "RetrievalMethod": nsDsig, "KeyName": nsDsig, "DigestMethod": nsDsig, "X509Data": nsDsig, "X509Certificate": nsDsig, "X509IssuerSerial": nsDsig,
 		"X509IssuerName": nsDsig, "X509SerialNumber": nsDsig, "X509SubjectName": nsDsig, "X509SKI": nsDsig,
 		"MGF": nsXenc11,
 	}
